@@ -11,7 +11,8 @@ import (
 	"github.com/iotaledger/hive.go/runtime/promise"
 )
 
-// The `pr` section: sequential histories over the real promise.Event1[int].
+// The `pr` section: sequential histories over the real promise.Event1[int]; the `p0` section: the same over the
+// parameterless promise.Event (arguments are reported as 0, only `p0 trigger 0`).
 //
 //	pr on [nest]   register a callback (a nesting callback registers a child callback from inside its own invocation)
 //	pr unsub c     call the unsubscribe function returned for callback c
@@ -24,8 +25,29 @@ type prCall struct {
 	arg   int
 }
 
+// prEvent abstracts over promise.Event1[int] (section `pr`) and the parameterless promise.Event (section `p0`,
+// where every argument is reported as 0).
+type prEvent interface {
+	OnTrigger(cb func(int)) func()
+	Trigger(v int) bool
+	WasTriggered() bool
+}
+
+type prEvent1 struct{ e *promise.Event1[int] }
+
+func (p prEvent1) OnTrigger(cb func(int)) func() { return p.e.OnTrigger(cb) }
+func (p prEvent1) Trigger(v int) bool            { return p.e.Trigger(v) }
+func (p prEvent1) WasTriggered() bool            { return p.e.WasTriggered() }
+
+type prEvent0 struct{ e *promise.Event }
+
+func (p prEvent0) OnTrigger(cb func(int)) func() { return p.e.OnTrigger(func() { cb(0) }) }
+func (p prEvent0) Trigger(int) bool              { return p.e.Trigger() }
+func (p prEvent0) WasTriggered() bool            { return p.e.WasTriggered() }
+
 type prWorld struct {
-	e      *promise.Event1[int]
+	e      prEvent
+	zero   bool // parameterless event: only `trigger 0` is accepted
 	unsubs []func()
 	log    []prCall
 	// oracle
@@ -36,12 +58,28 @@ type prWorld struct {
 	value     int
 }
 
-func (w *world) prw() *prWorld {
-	if w.pr == nil {
-		w.pr = &prWorld{e: promise.NewEvent1[int](), total: map[string]int{}, removed: map[int]bool{}}
+func (w *world) prw(zero bool) *prWorld {
+	pp := &w.pr
+	if zero {
+		pp = &w.p0
+	}
+	if *pp == nil {
+		var e prEvent = prEvent1{promise.NewEvent1[int]()}
+		if zero {
+			e = prEvent0{promise.NewEvent()}
+		}
+		*pp = &prWorld{e: e, zero: zero, total: map[string]int{}, removed: map[int]bool{}}
 	}
 
-	return w.pr
+	return *pp
+}
+
+func (p *prWorld) api() string {
+	if p.zero {
+		return "promise.Event"
+	}
+
+	return "promise.Event1"
 }
 
 func prName(c prCall) string {
@@ -71,8 +109,8 @@ func (p *prWorld) takeLog() string {
 	return "[" + strings.Join(parts, " ") + "]"
 }
 
-func (w *world) execPR(f []string) string {
-	p := w.prw()
+func (w *world) execPR(f []string, zero bool) string {
+	p := w.prw(zero)
 	if len(f) == 0 {
 		return "bad-op"
 	}
@@ -105,13 +143,13 @@ func (w *world) execPR(f []string) string {
 		return "done"
 	case f[0] == "trigger" && len(f) == 2:
 		v, err := strconv.Atoi(f[1])
-		if err != nil || v < 0 {
+		if err != nil || v < 0 || (p.zero && v != 0) {
 			return "bad-op"
 		}
 		first := p.e.Trigger(v)
 		if first != !p.triggered {
 			w.fail("promise-once", fmt.Sprintf("Trigger returned %v although triggered-before=%v", first, p.triggered),
-				map[string]string{"oracle": "trigger-result", "api": "promise.Event1.Trigger", "mode": "sequential"})
+				map[string]string{"oracle": "trigger-result", "api": p.api() + ".Trigger", "mode": "sequential"})
 		}
 		if !p.triggered {
 			p.triggered, p.value = true, v
@@ -132,7 +170,7 @@ func (p *prWorld) finish(w *world) {
 		for name, n := range p.total {
 			if n != 0 {
 				w.fail("promise-once", fmt.Sprintf("callback %s ran %d times although the event was never triggered", name, n),
-					map[string]string{"oracle": "called-before-trigger", "api": "promise.Event1", "mode": "sequential"})
+					map[string]string{"oracle": "called-before-trigger", "api": p.api(), "mode": "sequential"})
 			}
 		}
 
@@ -145,12 +183,12 @@ func (p *prWorld) finish(w *world) {
 		}
 		if got := p.total[strconv.Itoa(c)]; got != want {
 			w.fail("promise-once", fmt.Sprintf("callback %d ran %d times, expected %d", c, got, want),
-				map[string]string{"oracle": "callback-count", "api": "promise.Event1", "mode": "sequential", "got": strconv.Itoa(got), "want": strconv.Itoa(want)})
+				map[string]string{"oracle": "callback-count", "api": p.api(), "mode": "sequential", "got": strconv.Itoa(got), "want": strconv.Itoa(want)})
 		}
 		if p.nest[c] {
 			if got := p.total["n"+strconv.Itoa(c)]; got != want {
 				w.fail("promise-once", fmt.Sprintf("callback registered during the invocation of %d ran %d times, expected %d", c, got, want),
-					map[string]string{"oracle": "callback-count", "api": "promise.Event1", "mode": "during-trigger", "got": strconv.Itoa(got), "want": strconv.Itoa(want)})
+					map[string]string{"oracle": "callback-count", "api": p.api(), "mode": "during-trigger", "got": strconv.Itoa(got), "want": strconv.Itoa(want)})
 			}
 		}
 	}
@@ -158,9 +196,25 @@ func (p *prWorld) finish(w *world) {
 }
 
 var prCorpus = [][]string{
+	{"p0 on", "p0 on nest", "p0 was", "p0 trigger 0", "p0 was", "p0 on", "p0 on nest", "p0 trigger 0", "p0 unsub 0", "p0 trigger 5"},
 	{"pr on", "pr on nest", "pr was", "pr trigger 5", "pr was", "pr on", "pr on nest", "pr trigger 6", "pr unsub 0", "pr unsub 2"},
 	{"pr on", "pr on", "pr unsub 0", "pr unsub 0", "pr unsub 7", "pr trigger 0", "pr on"},
 	{"pr trigger 3", "pr trigger 4", "pr on", "pr was"},
+}
+
+// genP0 generates a history for the parameterless promise.Event.
+func genP0(rng *hx.Rng, n int) []string {
+	ops := genPR(rng, n)
+	for i, op := range ops {
+		f := strings.Fields(op)
+		f[0] = "p0"
+		if f[1] == "trigger" {
+			f[2] = "0"
+		}
+		ops[i] = strings.Join(f, " ")
+	}
+
+	return ops
 }
 
 func genPR(rng *hx.Rng, n int) []string {
